@@ -100,6 +100,16 @@ def c01_probes() -> list[Item]:
                        ("PUSH", 64), ("PUSH", 0x40), ("PUSH", 0), ("PUSH", 0), ("PUSH", 0), ("PUSH", CALLEE), ("PUSH", 0xFFFFF), "CALL", ("PUSH", 0x80), "MSTORE",
                        ("PUSH", 0x60), ("PUSH", 0x40), "RETURN"],
                       accounts={CALLEE: cal}, inputs=[{"cd0": 0, "cd1": 0}, {"cd0": 7, "cd1": 9}, {"cd0": (1 << 256) - 1, "cd1": 1 << 255}]))
+    # CODESIZE inside init code is the size of the init code (the account under construction has no code yet); inside a
+    # DELEGATECALL frame it is the size of the callee's code
+    init_cs = assemble(["CODESIZE", ("PUSH", 0), "MSTORE", ("PUSH", 32), ("PUSH", 0), "RETURN"])
+    lib = assemble(["CODESIZE", ("PUSH", 0), "MSTORE", ("PUSH", 32), ("PUSH", 0), "RETURN"] + ["STOP"] * 5)
+    out.append(_p("codesize-in-initcode-and-delegatecall",
+                  [("PUSHN", len(init_cs), int.from_bytes(init_cs, "big")), ("PUSH", 0), "MSTORE", ("PUSH", len(init_cs)), ("PUSH", 32 - len(init_cs)), ("PUSH", 0), "CREATE",
+                   ("PUSH", 32), ("PUSH", 0), ("PUSH", 0x40), "DUP4", "EXTCODECOPY", "POP",
+                   ("PUSH", 32), ("PUSH", 0x60), ("PUSH", 0), ("PUSH", 0), ("PUSH", CALLEE), ("PUSH", 0xFFFFF), "DELEGATECALL", "POP",
+                   "CODESIZE", ("PUSH", 0x80), "MSTORE", ("PUSH", 0x60), ("PUSH", 0x40), "RETURN"],
+                  accounts={CALLEE: lib}))
     # RETURNDATACOPY from a non-zero offset of the return data (three words: 0xAAAA, cd0, cd1), in front of / over dirty memory
     three = assemble([("PUSH", 0xAAAA), ("PUSH", 0), "MSTORE", ("PUSH", 0), "CALLDATALOAD", ("PUSH", 32), "MSTORE", ("PUSH", 32), "CALLDATALOAD", ("PUSH", 64), "MSTORE",
                       ("PUSH", 96), ("PUSH", 0), "RETURN"])
